@@ -40,6 +40,10 @@ def gen(rng, tier, quarantine=()):
     if qual == "K.meth":
         cands.append("self.n")
     focus = rng.choice(cands)
+    refusal = False
+    if qual == "clo" and rng.random() < 0.4:
+        focus = "c0"  # closure variable: the attempt must be refused with OverrideException
+        refusal = True
     ops = []
     # overlays (tweak/rewrite) need a tooled function
     need_tool = False
@@ -54,6 +58,8 @@ def gen(rng, tier, quarantine=()):
         sel = {"levels": [{"fn": qual, "caps": [{"var": c, "as": c} for c in ctx], "sibs": []}],
                "focus": {"var": focus, "as": focus}}
         how = gen_how(rng, ctx)
+        if refusal:
+            how = ["const", 5]
         if kind == "tweak":
             how = ["const", rng.choice([0, 9, 123])]
             need_tool = True
@@ -62,11 +68,11 @@ def gen(rng, tier, quarantine=()):
         recs.append({"op": "mk", "id": f"o{i}", "kind": kind, "sels": [sel], "how": how,
                      "nojudge": True})
     for i in range(nplain):
-        v = focus if rng.random() < 0.7 else rng.choice(names)
+        v = focus if rng.random() < 0.7 and not refusal else rng.choice(names)
         ctx = [n for n in names if n != v and n not in fnir.get("mutable", ()) and rng.random() < 0.3][:1]
         if "param" in forms.get(v, ()):
             ctx = [c for c in ctx if "param" not in forms[c]]
-        if focus not in ctx and v != focus and rng.random() < 0.5 and not focus.startswith("#") and "." not in focus and focus not in fnir.get("mutable", ()):
+        if not refusal and focus not in ctx and v != focus and rng.random() < 0.5 and not focus.startswith("#") and "." not in focus and focus not in fnir.get("mutable", ()):
             if not ("param" in forms.get(v, ()) and "param" in forms.get(focus, ())):
                 ctx.append(focus)
         sel = {"levels": [{"fn": qual, "caps": [{"var": c, "as": c} for c in ctx], "sibs": []}],
